@@ -63,7 +63,8 @@ def r1_validate_before_upload(ctx):
         )
     # the private-section encryption and the key emission precede the upload in encrypted mode
     encs = [enclosing_stmt(c) for c in calls_in(fn.node) if isinstance(c.func, ast.Attribute) and c.func.attr == 'encrypt']
-    emits = [enclosing_stmt(c) for c in calls_in(fn.node) if (isinstance(c.func, ast.Attribute) and c.func.attr == 'write_bytes') or (dotted(c.func) == 'print' and any(isinstance(a, ast.Name) and a.id == 'key' for x in c.args for a in ast.walk(x)))]
+    key_names = {t.id for a in walk_local(fn.node) if isinstance(a, ast.Assign) and any(True for _ in self_calls(a.value, {'_make_key'})) for t in a.targets if isinstance(t, ast.Name)}
+    emits = [enclosing_stmt(c) for c in calls_in(fn.node) if (isinstance(c.func, ast.Attribute) and c.func.attr == 'write_bytes') or (dotted(c.func) == 'print' and any(isinstance(a, ast.Name) and a.id in key_names for x in c.args for a in ast.walk(x)))]
     for sts, what in ((encs, 'encryption of the private section (cipher exercised)'), (emits, 'key emission')):
         oks = [x for st in sts for x in cfg.nodes_of(st, 'ok')]
         good = bool(oks) and all(cfg.set_dominates(oks + not_enc, x) for x in cfg.nodes_of(u, 'stmt'))
